@@ -301,9 +301,72 @@ LAZY_BUILTINS = [
     ("local f(a, b=std.trace('once', a)) = b + b; f(2)", 4.0),
     ("{local l = std.trace('once', 1), a: l, b: l}", {"a": 1.0, "b": 1.0}),
     ("local o = {a: std.trace('once', 1)}; [o.a, (o + {}).a == 1, o.a]", None),
+    # formatting: a '*' precision consumed by a conversion that ignores precision (%s %c) stays unevaluated; an object
+    # argument's unused fields stay unevaluated
+    ("std.format('%.*s', [error 'dead', 'abc'])", "abc"),
+    ("'%.*c' % [error 'dead', 'x']", "x"),
+    ("std.format('<%.*s|%5.*c>', [error 'dead', 'abc', error 'dead', 'x'])", "<abc|    x>"),
+    ("'%-6.*s|' % [error 'dead', 'hello']", "hello |"),
+    ("std.mod('%.*s', [error 'dead', 'abc'])", "abc"),
+    ("'%-6.*s|' % [std.trace('NEVER', 2), 'hello']", "hello |"),
+    ("'%(a)s' % {a: 1, b: error 'dead'}", "1"),
+    ("std.format('%(a)s-%(a)d', {a: 2, b: error 'dead'})", "2-2"),
+    # hidden fields are not part of any manifestation / comparison / traversal of visible fields
+    ("std.manifestJsonMinified({a: 1, b:: error 'dead'})", '{"a":1}'),
+    ("std.toString({a: 1, b:: error 'dead'})", '{"a": 1}'),
+    ("{a: 1, b:: error 'dead'} == {a: 1}", True),
+    ("std.equals({a: 1, b:: error 'dead'}, {a: 1})", True),
+    ("std.assertEqual({a: 1, b:: error 'dead'}, {a: 1})", True),
+    ("std.prune({a: 1, b:: error 'dead'})", {"a": 1.0}),
+    ("std.mapWithKey(function(k, v) v, {a: 1, b:: error 'dead'})", {"a": 1.0}),
+    ("std.manifestYamlDoc({a: 1, b:: error 'dead'})", '"a": 1'),
+    ("std.manifestTomlEx({a: 1, b:: error 'dead'}, ' ')", "a = 1"),
+    ("std.manifestPython({a: 1, b:: error 'dead'})", '{"a": 1}'),
+    ("'a' in {a: error 'dead'}", True),
+    ("std.isObject({a: error 'dead'})", True),
+    ("std.objectHasEx({a: error 'dead'}, 'a', true)", True),
+    ("std.objectFieldsEx({a:: error 'dead'}, true)", ["a"]),
+    ("std.length(std.objectKeysValuesAll({a:: error 'dead'}))", 1.0),
+    ("std.objectValuesAll({a:: 1, b:: error 'dead'})[0]", 1.0),
+    # structure-only operations
+    ("std.mergePatch({a: error 'dead', b: 1}, {b: 2}).b", 2.0),
+    ("std.objectRemoveKey({a: error 'dead', b: 1}, 'c').b", 1.0),
+    ("std.objectRemoveKey({a: error 'dead', b: 1}, 'a')", {"b": 1.0}),
+    ("std.length(std.sort([error 'dead']))", 1.0),
+    ("std.length(std.uniq([error 'dead']))", 1.0),
+    ("std.length(std.set([error 'dead']))", 1.0),
+    ("std.slice([error 'dead', 1, 2, 3], 1, 4, 2)", [1.0, 3.0]),
+    ("[1, error 'dead'][0:1]", [1.0]),
+    ("std.length(std.flatMap(function(x) [error 'dead'], [1, 2]))", 2.0),
+    ("std.length(std.makeArray(2, function(i) error 'dead') + [error 'dead'])", 3.0),
+    ("std.repeat([1, error 'dead'], 2)[2]", 1.0),
+    ("std.get({a: error 'dead', b: 2}, 'b', error 'dead')", 2.0),
+    ("std.foldl(function(acc, x) acc + 1, [error 'dead', error 'dead'], 0)", 2.0),
+    ("std.objectFields(std.mapWithKey(function(k, v) error 'dead', {a: error 'dead'}))", ["a"]),
+    ("std.length(std.mapWithIndex(function(i, x) error 'dead', [error 'dead']))", 1.0),
+    ("std.length(std.reverse(std.makeArray(3, function(i) error 'dead')))", 3.0),
+    ("std.removeAt([1, error 'dead', 3], 1)", [1.0, 3.0]),
+    ("std.length(std.filterMap(function(x) true, function(x) error 'dead', [1, 2]))", 2.0),
+    ("local f(a, b) = a; f(b=error 'dead', a=1)", 1.0),
+    ("local f(a=error 'dead', b=1) = b; f()", 1.0),
     ("[std.trace('once', 1) for x in [0]][0] + 0", 1.0),
     ("local a = [std.trace('once', 1)]; [x for x in a] + a", [1.0, 1.0]),
 ]
+
+
+def format_star_cases():
+    """A '*' precision taken by a conversion that ignores precision (s, c) must stay unevaluated, whatever the flags,
+    the width form and the entry point: the call must equal the same call without the precision."""
+    out = []
+    for conv, val in (("s", "'abc'"), ("s", "[1, 'x']"), ("c", "'x'"), ("c", "65")):
+        for flags in ("", "-", "0", "+", " ", "#", "-0"):
+            for width in ("", "5", "*"):
+                for entry in ("std.format(%s, %s)", "%s %% %s", "std.mod(%s, %s)"):
+                    wargs = ["7"] if width == "*" else []
+                    with_p = entry % ("'[%%%s%s.*%s]'" % (flags, width, conv), "[" + ", ".join(wargs + ["error 'dead'", val]) + "]")
+                    without = entry % ("'[%%%s%s%s]'" % (flags, width, conv), "[" + ", ".join(wargs + [val]) + "]")
+                    out.append(("(%s) == (%s)" % (with_p, without), True))
+    return out
 
 
 def builtins_shard(args):
@@ -311,7 +374,7 @@ def builtins_shard(args):
     agg = Agg()
     ev = Ev(agg)
     try:
-        for src, exp in LAZY_BUILTINS:
+        for src, exp in LAZY_BUILTINS + format_star_cases():
             r = ev.run(src, walk=1)
             agg.nontrivial.add(common.h64(src))
             if exp is None:
@@ -325,6 +388,9 @@ def builtins_shard(args):
             if "'once'" in src and len(once) != 1:
                 agg.violation({"kind": "evaluated_more_than_once", "src": src[:70]},
                               {"src": src, "trace": list(r.trace)}, {"script": r.lines})
+            if "NEVER" in r.trace:
+                agg.violation({"kind": "dead_element_evaluated", "src": src[:70]}, {"src": src, "trace": list(r.trace)},
+                              {"script": r.lines})
             if "'key'" in src:
                 c = collections.Counter(r.trace)
                 if sorted(c) != ["key1", "key2", "key3"] or max(c.values()) != 1:
